@@ -38,15 +38,15 @@ func symbolS(s decoder.Symbol) S {
 	switch x := s.(type) {
 	case *decoder.BlockSymbol:
 		kind = "block"
-		extra = x.Type + "|" + strings.Join(x.Labels, "|")
+		extra = strings.Join(append([]string{x.Type}, x.Labels...), "|")
 	case *decoder.AttributeSymbol:
 		kind = "attr"
-		extra = fmt.Sprintf("%T", x.ExprKind)
+		extra = exprKindS(x.ExprKind)
 	case *decoder.ExprSymbol:
 		kind = "expr"
-		extra = fmt.Sprintf("%T", x.ExprKind)
+		extra = exprKindS(x.ExprKind)
 	}
-	return T("sym", Atom(kind), Str(s.Name()), Str(extra), Str(s.Path().Path), rangeS(s.Range()), nested)
+	return T("sym", Atom(kind), Str(s.Name()), Str(extra), rangeS(s.Range()), nested)
 }
 
 func tokenS(t lang.SemanticToken) S {
@@ -156,4 +156,18 @@ func outcomeS(r QResult) S {
 		return T("panic", Str(r.PanicFunc))
 	}
 	return T("out", resultS(r.Val), errS(r.Err))
+}
+
+func exprKindS(k lang.SymbolExprKind) string {
+	switch x := k.(type) {
+	case lang.ReferenceExprKind:
+		return "ref"
+	case lang.LiteralTypeKind:
+		return "lit:" + x.Type.FriendlyName()
+	case lang.TupleConsExprKind:
+		return "tuple"
+	case lang.ObjectConsExprKind:
+		return "object"
+	}
+	return ""
 }
